@@ -244,7 +244,16 @@ def create_formatted_exception(
         try:
             inst = BaseException.__new__(new)
         except TypeError:
-            inst = cls.__new__(new)
+            # (a class made here before has the generic constructor,
+            # too: ask the classes it derives from)
+            for base_cls in cls.__mro__:
+                try:
+                    inst = base_cls.__new__(new)
+                except TypeError:
+                    continue
+                break
+            else:
+                raise
 
         BaseException.__init__(inst, *exc.args)
         inst.__dict__ = exc.__dict__  # type: ignore[assignment]
